@@ -294,6 +294,37 @@ def _impl_wild(case, out):
     return saturated_iterate(case)
 
 
+def stagnation(case, out, tol, last=None):
+    """A coordinate-descent run that did NOT converge, judged without any budget argument: one pass over a coordinate
+    whose optimality violation is v gains at least v^2 / (2 L_j) of objective (exact coordinate minimisation of an
+    L_j-smooth term plus a separable penalty).  If the returned history (true objective per outer iteration, C17) is flat
+    over its last iterations -- a hundred times less than ONE pass must gain -- while the reference-maths violation of the
+    returned point is thousands of tolerances, the iteration has a fixed point that is not a solution.
+    -> None, or a message.  Scalar AndersonCD / GramCD compositions only (convex or not: CD is a descent method)."""
+    try:
+        s = case["solver"]
+        if s["name"] not in ("AndersonCD", "GramCD") or out.w is None or out.obj is None:
+            return None
+        if "groups" in case["penalty"] or np.ndim(case["y"]) > 1 and (case["datafit"] or {}).get("name") != "Cox":
+            return None
+        w = np.asarray(out.w, float)
+        obj = np.asarray(out.obj, float)
+        last = last or (1000 if s["name"] == "GramCD" else 10)
+        if len(obj) < 2 * last or not (np.all(np.isfinite(w)) and np.all(np.isfinite(obj[-last - 1:]))):
+            return None
+        c = certificate(case, w, "subdiff")
+        v = float(max(c["feat"], c["icpt"]))
+        L = np.asarray(P.coord_lipschitz(case), float)
+        Lmax = float(max(np.max(L) if L.size else 0., 1.))      # 1 also covers the intercept coordinate
+        drop = float(obj[-last - 1] - obj[-1])
+        if math.isfinite(v) and v > 1e3 * tol and drop < 1e-2 * v * v / (2 * Lmax):
+            return (f"stops moving at a point whose optimality violation is {v:.3e} (tol {tol:g}): objective change over the last {last} "
+                    f"outer iterations {drop:.1e}, while one coordinate pass must gain >= {v * v / (2 * Lmax):.1e}")
+        return None
+    except Exception:  # noqa -- no reference model: no judgement
+        return None
+
+
 def predicted_wild_step(case, w_from):
     """Implementation-independent form of the root cause: at `w_from` (reference gradient g and reference Hessian
     weights h of the loss) some pure Newton coordinate step |g_j| / sum_i h_i X_ij^2 -- or the intercept step
